@@ -59,6 +59,8 @@ def gen_case(r):
         bt = '' if shape == 'then-empty' else ' ' if shape == 'then-blank' else 'W%sx\\stepcounter{%s}' % (a[2:].upper(), a)
         be = '' if shape == 'else-empty' else 'W%sx\\stepcounter{%s}' % (b[2:].upper(), b)
         body += '\\ifthenelse{%s}{%s}{%s} ' % (t, bt, be)
+        if r.random() < 0.3:
+            body += g.reassign()
         if bt.strip():
             expect[a] = 1 if v else 0
         if be:
